@@ -242,3 +242,39 @@ pub fn uni_canary() {
     std::mem::forget(m);
     assert!(r.is_none());
 }
+
+// ---------------------------------------------------------------------------------------------
+// the REAL fuzzy_match_optimal on a code-point haystack (callee-against-body side for H = char;
+// the entry obligations above replace it by its contract).  Precondition = postcondition of
+// prefilter_non_ascii: hay[START] matches needle[0], hay[H-1] matches the last needle character.
+// ---------------------------------------------------------------------------------------------
+pub fn uni_opt_real<const H: usize, const N: usize, const START: usize>() {
+    let i = inputs::<1, H, N, 0>();
+    let n = ascii(&i.needle_b);
+    let h: &[char] = &i.hay;
+    kani::assume(matches(h[START], n[0], &i.cfg) && matches(h[H - 1], n[N - 1], &i.cfg));
+    let mut m = small_matcher(i.cfg.clone(), crate::fuzzy_optimal::verif_optimal::SLAB);
+    let p0: u32 = kani::any();
+    let mut idx = Vec::with_capacity(N + 2);
+    idx.push(p0);
+    let r = m.fuzzy_match_optimal::<true, char, AsciiChar>(h, n, START, START + 1, H, &mut idx);
+    let expect = spec_subseq(&h[START..], n, &i.cfg);
+    assert!(r.is_some() == expect, "fuzzy_match_optimal on a code-point haystack succeeds exactly when the needle is a normalised subsequence of the window");
+    assert!(idx[0] == p0);
+    match r {
+        None => assert!(idx.len() == 1, "a failed match appends nothing"),
+        Some(s) => {
+            assert!(idx.len() == 1 + N);
+            let mut got = [0u32; N];
+            let mut k = 0;
+            while k < N {
+                got[k] = idx[1 + k];
+                k += 1;
+            }
+            assert!(spec_witness(h, n, &i.cfg, &got), "indices are a valid witness");
+            assert!(s as u32 == spec_score(h, &i.cfg, i.kind, &got), "score == fzf scheme on the reported alignment");
+        }
+    }
+    kani::cover!(r.is_some());
+    std::mem::forget(m);
+}
